@@ -163,7 +163,15 @@ func (x *Exec) alternatives() []string {
 		}
 		break // one control at a time, in order
 	}
-	if x.TickEnabled && !x.timeIdle && x.ticks < x.MaxTicks {
+	// a preempted goroutine ("~pt:" gate) is an ordering choice, not a delay: virtual time does not advance while one is
+	// parked (otherwise every timing bound of the engine could be broken by the explorer itself)
+	parked := false
+	for _, p := range pend {
+		if strings.HasPrefix(p.Name, "~pt:") {
+			parked = true
+		}
+	}
+	if x.TickEnabled && !x.timeIdle && x.ticks < x.MaxTicks && !parked {
 		alts = append(alts, "tick")
 	}
 	for _, p := range idle {
